@@ -242,6 +242,72 @@ func parseBundle(gz []byte) ([]bundleEntry, error) {
 	return out, nil
 }
 
+// bundlePrefix is the number of entries of a staging bundle that can be read before the first one that cannot (0 when
+// the object does not even decompress): what a reader that acts on each entry as it goes gets to see.
+func bundlePrefix(gz []byte) int {
+	b, err := sqGunzip(gz)
+	if err != nil {
+		return 0
+	}
+	n := 0
+	r := tar.NewReader(bytes.NewReader(b))
+	for {
+		h, err := r.Next()
+		if err != nil {
+			return n
+		}
+		opts, ok := h.PAXRecords["SUNLIGHT.opts"]
+		if !ok {
+			return n
+		}
+		var o struct {
+			ContentType string
+			Compressed  bool
+			Immutable   bool
+		}
+		if err := json.Unmarshal([]byte(opts), &o); err != nil {
+			return n
+		}
+		if _, err := io.ReadAll(r); err != nil {
+			return n
+		}
+		n++
+	}
+}
+
+// bundleFullyParses: the object decompresses and reads as a tar archive of staged uploads up to its end marker.
+func bundleFullyParses(gz []byte) bool {
+	b, err := sqGunzip(gz)
+	if err != nil {
+		return false
+	}
+	r := tar.NewReader(bytes.NewReader(b))
+	for {
+		h, err := r.Next()
+		if err == io.EOF {
+			return true
+		}
+		if err != nil {
+			return false
+		}
+		opts, ok := h.PAXRecords["SUNLIGHT.opts"]
+		if !ok {
+			return false
+		}
+		var o struct {
+			ContentType string
+			Compressed  bool
+			Immutable   bool
+		}
+		if err := json.Unmarshal([]byte(opts), &o); err != nil {
+			return false
+		}
+		if _, err := io.ReadAll(r); err != nil {
+			return false
+		}
+	}
+}
+
 // tileLeaf is the independent decoding of one TileLeaf (c2sp.org/static-ct-api).
 type tileLeaf struct {
 	TS      uint64
